@@ -130,3 +130,21 @@ Section TempoChangeInv.
     - intros E; injection E as <-. apply P_tempo, H.
   Qed.
 End TempoChangeInv.
+
+(* ---- SysEx: a runtime error entry and nothing else, or one event; GSEffect: the events of Cmd.cmd_gs_effect ---- *)
+Lemma exec_sysex_cases s cs args s' : exec_sysex s cs args = Ok s' ->
+  (args = [] /\ exists m, s' = runtime_error s m) \/
+  (args <> [] /\ zlen args <= SYSEX_MAX /\ s' = add_events s (fun tp _ => Cmd.cmd_sysex tp args (cs =? 1))).
+Proof.
+  unfold exec_sysex. destruct args as [|a r].
+  - intros E; injection E as <-. left. split; [reflexivity|]. eexists; reflexivity.
+  - destruct (SYSEX_MAX <? _) eqn:G; [discriminate|]. intros E; injection E as <-. right.
+    split; [discriminate|]. split; [lia|reflexivity].
+Qed.
+Lemma exec_gs_effect_cases s tag a rest s' : exec_gs_effect s tag a rest = Ok s' ->
+  exists evs, Cmd.cmd_gs_effect (tr_timepos (cur_track s)) (as_u8 (s_device s)) (tr_channel (cur_track s)) tag (a :: rest) = Ok evs
+              /\ s' = add_events s (fun _ _ => evs).
+Proof.
+  unfold exec_gs_effect. destruct (Cmd.cmd_gs_effect _ _ _ _ _) as [evs| | |]; cbn [bind]; try discriminate.
+  intros E; injection E as <-. eexists; split; reflexivity.
+Qed.
